@@ -3,7 +3,7 @@
    Proofs/DefaultBuilder.v. Only the generated Vec actions are modelled (partial); the statement
    over all type shapes is explored on the real generated builders by gen/c10.py, which also ties
    this model to the real code (build_vec of the derivation = the real vector, every run). *)
-From RV Require Import Model.DefaultBuilder Proofs.DefaultBuilder.
+From RV Require Import Model.DefaultBuilder Proofs.DefaultBuilder Model.DefaultAst Proofs.DefaultAst.
 
 (* Repetition rules yield vectors in input order: for EVERY derivation of a vector rule — left
    recursive, right recursive or mixed, with the single-element or the EMPTY base, of any length —
@@ -21,3 +21,36 @@ Example c10_nonvacuous :
   build_vec (VLeft (VLeft VEmpty 1) 2) = BVal [1; 2] /\
   build_vec (VRight 1 (VLeft (VRight 2 (VOne 3)) 4)) = BVal [1; 2; 3; 4].
 Proof. vm_compute. repeat split; reflexivity. Qed.
+
+(* The general shape of the property over Model/DefaultAst.v (all value shapes the generator emits:
+   token value, struct, enum variant, Option, Box, Vec): the value built for ANY derivation tree holds
+   exactly the content tokens of the input, in input order, each once — provided every production
+   action keeps the literals of its arguments in order (the per-action obligation) ... *)
+Theorem ast_tokens_compositional :
+  forall act, (forall p args, lits (act p args) = args_lits args) ->
+  forall t, match build act t with Some a => lits a | None => [] end = content t.
+Proof. intros act Hact t. exact (build_content_main act Hact t). Qed.
+Print Assumptions ast_tokens_compositional.
+
+(* ... and every action body get_action_body writes (struct of the content arguments, enum variant
+   of a struct / a (boxed) reference / nothing, plain (boxed) reference, Some(..) / None of an optional
+   rule, vec![], vec![x], push, insert(0, ..)) meets that obligation whenever the argument list fits
+   the kind. Partial: that the type deduction (generator/actions/mod.rs) always picks a fitting kind,
+   and that no-content terminals are exactly the dropped arguments, is NOT modelled — it is what
+   gen/c10.py explores on the real generated builders. *)
+Theorem std_actions_keep_order_partial :
+  forall k args, fits k args = true -> lits (std_action k args) = args_lits args.
+Proof. intros k args Hf. exact (std_action_main k args Hf). Qed.
+Print Assumptions std_actions_keep_order_partial.
+
+(* non-vacuity: `S: 'k' A? B*;  A: num;  B: num | '-';` shaped tree, keyword without content *)
+Example c10_ast_nonvacuous :
+  let act p := std_action (match p with
+                           | 0 => KStruct | 1 => KSomeOf (KRef false) | 2 => KNone
+                           | 3 => KVecPush false | 4 => KVecEmpty | 5 => KVariantRef 0 false
+                           | _ => KPlain 1 end) in
+  let t := DNode 0 [DLeaf false 9; DNode 1 [DLeaf true 1];
+                    DNode 3 [DNode 3 [DNode 4 []; DNode 5 [DLeaf true 2]]; DNode 6 [DLeaf false 8]]] in
+  build act t = Some (AStruct [ASome (ALit 1); AVec [AVariant 0 (Some (ALit 2)); AVariant 1 None]])
+  /\ content t = [1; 2].
+Proof. vm_compute. split; reflexivity. Qed.
